@@ -89,6 +89,27 @@ def check(ctx):
         ob = ctx.add(Obligation(ctx.prop, name, 'native-eval', 'bounded', 'failed', seconds=secs, bound=bound, detail='crashed: rc=%s %s' % (rc, err[-500:])))
         ob.witness = dict(instance='(panic inside sort)', observed=err[-500:], via='public API', replay=['api', 'sortdocs', 'corpus'])
         ctx._record_violation(ob)
+    # API-level bounded check: sorting keeps the children in the specification order of the file's version, for every element type
+    rc, out, err, secs = run([b, 'api', 'sortorder', '200000', str(1 + ctx.seed), 'survey'], timeout=1800)
+    ctx.t('native-enum', secs)
+    lines = out.strip().splitlines()
+    last = lines[-1] if lines else ''
+    name = 'native/api-sort-keeps-specification-order'
+    bound = 'children created through the editing API (4-13 pseudo-random insertions) on a fresh element of every element type reached breadth-first from ElementType::ROOT, in up to 21 versions per type (98 205 elements)'
+    fails = [l for l in lines if l.startswith('FAIL')]
+    if not (last.startswith('OK') or last.startswith('SURVEY')):
+        ctx.undecided.append('%s: no result (rc=%s) %s' % (name, rc, (out + err)[-300:]))
+    else:
+        import re as _re
+        for k, l in enumerate(fails[:10]):
+            m = _re.search(r'replay: api editconform1 (\d+) (\S+) (\d+)\]', l)
+            ob = ctx.add(Obligation(ctx.prop, '%s#%d' % (name, k), 'native-eval', 'bounded', 'failed', seconds=secs, bound=bound, detail=l[5:1200]))
+            ob.witness = dict(history=l[5:1200], observed=l[5:].split(' [')[0][:600], via='public API: create_*_sub_element_at, Element::sort, sub_elements; oracle: pairwise specification order for the file version from the specification lookups',
+                              replay=['api', 'sortorder1', m.group(1), m.group(2), m.group(3)] if m else None)
+            ctx._record_violation(ob)
+        if not fails:
+            ctx.add(Obligation(ctx.prop, name, 'native-eval', 'bounded', 'discharged', seconds=secs, bound=bound,
+                               detail='after Element::sort the children are in the specification order of the file version (pairwise oracle), and sorting twice equals sorting once [%s]' % last))
     return ctx.finish(
         explanation='`sort` is sort_by over Element::cmp, a lexicographic chain; "result independent of the previous order" and "never fails" need every link to be a total preorder consistent with equality. Complete Kani harnesses (all u64 / all f64 bit patterns, concrete kinds) discharge the laws for CharacterData::cmp on every kind triple CBMC can carry; the item-name link and the API-level statement are checked on small sibling sets natively (bounded). That sort only permutes, skips ordered containers and keeps indexes intact is element-graph code and not under contract.',
         checker_cmd='cargo kani --harness cmp_laws_*; vxnative api sort3 3',
